@@ -69,9 +69,9 @@ func buildC16(c *core.Ctx, idx int) []c16Op {
 	}
 	target := r.Range(200, 500)
 	if !core.Quick(c) {
-		target = r.Range(300, 1500)
-		if r.Chance(1, 6) {
-			target = r.Range(1500, 3000)
+		target = r.Range(300, 1000)
+		if r.Chance(1, 10) {
+			target = r.Range(1000, 2000)
 		}
 	}
 	rng := func(t *model.Table, span int) *proto.Cond {
@@ -160,12 +160,12 @@ func rowsKey(r *proto.Res) string {
 }
 
 func checkC16(c *core.Ctx) []core.Floor {
-	c.Rule = "seeded workloads over 2-4 tables of 200-500 rows (quick) / 300-3000 rows (thorough) (inserts <= 40 rows, updates/deletes over <= 12 consecutive keys, full scans, filtered scans, catalog scans), dirty pages flushed after every statement; run once with the default cache (10000 pages), measuring the largest per-statement dirty set and the tree height, then with small capacities chosen above that dirty set (precondition of the property guaranteed by construction); every statement outcome, every SELECT result (with row ids) and the final contents must be identical. Distinct = (workload, capacity); non-trivial = the small run re-read at least 1000 pages from the file."
+	c.Rule = "seeded workloads over 2-4 tables of 200-500 rows (quick) / 300-2000 rows (thorough) (inserts <= 40 rows, updates/deletes over <= 12 consecutive keys, full scans, filtered scans, catalog scans), dirty pages flushed after every statement; run once with the default cache (10000 pages), measuring the largest per-statement dirty set and the tree height, then with small capacities chosen above that dirty set (precondition of the property guaranteed by construction); every statement outcome, every SELECT result (with row ids) and the final contents must be identical. Distinct = (workload, capacity); non-trivial = the small run re-read at least 1000 pages from the file."
 	c.Assume = []string{"the default-capacity run is the reference; its own correctness is C01's business"}
 	drv := mustDriver(c, false)
 	n := 24
 	if !core.Quick(c) {
-		n = 300
+		n = 160
 	}
 	core.ParallelFor(n, c.Workers, func(i int) { runC16(c, drv, i) })
 	minReload := int64(10000)
